@@ -1,7 +1,8 @@
 (* C16 — a failed parse applies exactly the preceding statements; errors say where.
-   Statements only; proofs in Proofs/StmtProofs.v. *)
+   Statements only; proofs in Proofs/StmtProofs.v (include-free) and Proofs/StmtProofs5.v (includes at any depth,
+   every kind of failure: semantic, syntactic, tokenizer, missing file). *)
 From Coq Require Import List String ZArith Bool Arith.
-From GinV Require Import Lib.Out Lib.PyStr Model.SelectorMap Model.Parser Model.Stmt Model.StmtSpec Proofs.StmtProofs.
+From GinV Require Import Lib.Out Lib.PyStr Model.SelectorMap Model.Parser Model.Stmt Model.StmtSpec Model.StmtEngine Proofs.StmtProofs Proofs.StmtProofs2 Proofs.StmtProofs3 Proofs.StmtProofs4 Proofs.StmtProofs5.
 Import ListNotations.
 Open Scope string_scope.
 Open Scope list_scope.
@@ -69,6 +70,44 @@ Proof. exact with_loc_chain. Qed.
 Theorem C16_syntax_untouched : forall A l f n, @with_loc A l (SErr (SESyntax f n)) = SErr (SESyntax f n).
 Proof. exact with_loc_syntax. Qed.
 
+(* ---- with includes, at any depth, whatever ends the parse ---- *)
+(* flatten_px tags every group of the flattened text with its file and include chain and returns the error that
+   ends the text (syntax / tokenizer error or missing file in any file at any depth), if any.  Parsing equals
+   running the tagged groups in order: same registry / constants / store / lock, and EXACTLY the same error,
+   location chain included. *)
+Theorem C16_stream_eq_with_includes : forall fuel env sk fname o pending ts s im ic gs pe tg fin,
+  parse_groups fuel o pending ts = (gs, pe) -> List.length gs < fuel ->
+  flatten_px fuel env fname gs pe = Some (tg, fin) ->
+  sim (fst (parse_tokens fuel env sk fname o pending ts s im ic)) (fst (run_tagged env sk tg fin s)) /\
+  err_match (snd (parse_tokens fuel env sk fname o pending ts s im ic)) (snd (run_tagged env sk tg fin s)).
+Proof. exact StmtProofs5.C16_stream_eq_with_includes. Qed.
+
+(* exactly the preceding statements of the flattened text have taken effect, and the error names the file and line
+   of the offending statement followed by one (including file, line of the include) per level *)
+Theorem C16_failed_parse_with_includes_located : forall fuel env sk fname o pending ts s im ic gs pe tg fin s1 e,
+  parse_groups fuel o pending ts = (gs, pe) -> List.length gs < fuel -> flatten_px fuel env fname gs pe = Some (tg, fin) ->
+  parse_tokens fuel env sk fname o pending ts s im ic = (s1, SErr e) ->
+  (exists s0, consume_tagged env sk tg s = (s0, None) /\ fin = Some e /\ sim s1 s0) \/
+  (exists t1 t t2 s0 e0, tg = t1 ++ t :: t2 /\ consume_tagged env sk t1 s = (s0, None) /\
+     e = wrap_chain (chain_of t) e0 /\
+     ((resolve_group s0 sk (tg_file t) (tg_stmts t) = SErr e0 /\ sim s1 s0) \/
+      exists g' pre st post s0' im' ic' c,
+        resolve_group s0 sk (tg_file t) (tg_stmts t) = SOk g' /\ g' = pre ++ st :: post /\
+        apply_stmts env sk (tg_file t) no_inc pre s0 [] [] = (s0', SOk (im', ic')) /\
+        apply_stmts env sk (tg_file t) no_inc [st] s0' im' ic' = (s0', SErr e0) /\ sim s1 s0' /\
+        e0 = SEOther c [(tg_file t, stmt_line st)] /\
+        e = SEOther c ((tg_file t, stmt_line st) :: chain_of t))).
+Proof. exact StmtProofs5.C16_failed_parse_with_includes_located. Qed.
+
+Theorem C16_chain_once_per_level : forall ch c ch0, wrap_chain ch (SEOther c ch0) = SEOther c (ch0 ++ ch).
+Proof. exact wrap_chain_other. Qed.
+Theorem C16_syntax_error_passes_all_levels : forall ch f n, wrap_chain ch (SESyntax f n) = SESyntax f n.
+Proof. exact wrap_chain_syntax. Qed.
+
+(* hypotheses satisfiable: depth 2, a semantic error in the innermost file, and a syntax error in the innermost file *)
+Theorem C16_with_includes_nonvacuous : True.
+Proof. pose proof StmtProofs5.C16DeepExample.hyps. pose proof StmtProofs5.C16DeepExample.hyps_syntax. exact I. Qed.
+
 Print Assumptions C16_stream_eq.
 Print Assumptions C16_failed_parse_is_prefix.
 Print Assumptions C16_group_prefix.
@@ -77,3 +116,8 @@ Print Assumptions C16_error_leaves_flags.
 Print Assumptions C16_provenance.
 Print Assumptions C16_chain_append.
 Print Assumptions C16_syntax_untouched.
+Print Assumptions C16_stream_eq_with_includes.
+Print Assumptions C16_failed_parse_with_includes_located.
+Print Assumptions C16_chain_once_per_level.
+Print Assumptions C16_syntax_error_passes_all_levels.
+Print Assumptions C16_with_includes_nonvacuous.
